@@ -230,3 +230,17 @@ CLAIMS["C06"] = {
             "hand proof in DESIGN.md appendix A, not machine-checked) and the numeric range of margins given data (feasible-range "
             "bounds are data dependent). Called / stop-listed contests are C07's domain.",
 }
+
+CLAIMS["C17"] = {
+    "technique": "def-use term of the vectorised per-unit interpolation normalised with the index expressions as named atoms and "
+                 "compared with the statement's formula as a rational function; CFG dominance and shape checks for the early "
+                 "returns; structural match of the consumer's filter",
+    "level": "Decides for every version history (any number of versions, repeats, zero-vote versions, downward revisions, re-scaled "
+             "percentages): both irregularity tests return 101 rows of missing estimates with their own error type before any "
+             "estimate is computed; est(p) = (m_i v_i + b_i (p - v_i)) / p with i the last observation <= p (searchsorted right - 1, "
+             "clipped), b_i the forward batch margin, and the before-first-observation substitution (v = 0, m = b = first margin); "
+             "correction = final margin - est on percents 0..int(max); the percent axis is the re-scaled turnout; the extrapolation "
+             "averages only non-null corrections near an observation. Convexity follows from v_i <= p (choice of i).",
+    "note": "Not decided: numeric range for given data, and the value at p = 0 (observation O2: it is 0, not the first observed "
+            "margin). numpy.searchsorted / divide semantics trusted.",
+}
